@@ -1,11 +1,68 @@
-// simdrv_proxy.cpp — scenario ops for the proxy test server (to be filled in).
+// simdrv_proxy.cpp — scenario ops for the HTTP test proxy `sim::http_proxy` (x<k>).
+//
+//   x<k>.new <node> port=<n>     construct the real proxy on a node (listens on <any>:<n>, starts accepting)
+//   x<k>.stop                    http_proxy::stop()
+//   x<k>.destroy                 ~http_proxy()
+//
+// The proxy's callbacks print no H line (they are internal kernel tasks); what it does is
+// observed at the scenario's own sockets: the client(s) and the scripted origin server(s).
+//
+// The object's storage is zero-filled before construction: the three 64 kB buffers are not
+// initialised by the constructor, and a completion that is delivered after close_connection()
+// reset the byte counts makes the proxy parse bytes it never received (see Props/C18.lean);
+// zero-filling makes that behaviour a function of the scenario (the model's memory starts as
+// zeros too).
 #include "simdrv.hpp"
+#include "simdrv_srv.hpp"
+
+#include <cstring>
+#include <new>
 
 namespace simdrv {
 
-bool World::op_proxy(std::string const&, toks const&)
+bool World::op_proxy(std::string const& ctx, toks const& op)
 {
-	return false;
+	std::string const& o = op[0];
+	std::size_t const dot = o.find('.');
+	if (dot == std::string::npos) return false;
+	std::string const name = o.substr(0, dot);
+	std::string const m = o.substr(dot + 1);
+	if (name.size() < 2 || name[0] != 'x' || !isdigit(name[1])) return false;
+	if (!srv) srv = std::make_shared<Srv>();
+	std::string const text = join(op, 0);
+	char const* c = ctx.c_str();
+	auto res = [&](char const* r) { emit("C %s %s => %s", c, text.c_str(), r); };
+
+	if (m == "new")
+	{
+		std::string const nd = op.size() > 1 && op[1].find('=') == std::string::npos ? op[1] : default_node;
+		int const port = int(kvi(op, "port", 8080));
+		srv->proxy.erase(name);
+		void* mem = ::operator new(sizeof(sim::http_proxy));
+		std::memset(mem, 0, sizeof(sim::http_proxy));
+		try
+		{
+			++api_depth;
+			sim::http_proxy* p = new (mem) sim::http_proxy(node(nd), static_cast<unsigned short>(port));
+			--api_depth;
+			srv->proxy[name].reset(p);
+			res("-");
+		}
+		catch (std::exception const&)
+		{
+			// bind() failed (privileged port, port in use, …): the constructor threw
+			--api_depth;
+			::operator delete(mem);
+			res("throw");
+		}
+		return true;
+	}
+	auto it = srv->proxy.find(name);
+	if (it == srv->proxy.end() || !it->second) { res("skipped"); return true; }
+	if (m == "stop") { ++api_depth; it->second->stop(); --api_depth; res("-"); }
+	else if (m == "destroy") { ++api_depth; srv->proxy.erase(it); --api_depth; res("-"); }
+	else return false;
+	return true;
 }
 
 } // namespace simdrv
